@@ -235,9 +235,9 @@ def to_val(case):
     elif rf[0] == 'arr':
         rfv = [[0, rf[1]]]
     elif rf[0] == 'field':
-        rfv = [[1, _b(rf[1]), _field_flags(case, rf[1])]]
+        rfv = [[1, _b(rf[1]), _field_flags(case, rf[1]), 1]]
     else:
-        rfv = [[1, _b(rf[1]), rf[2]]]
+        rfv = [[1, _b(rf[1]), rf[2], 0]]
     return [1, VARIANT, fr, rfv, _cf_val(case['cf']), DEFAULT_CHUNK if case['chunk'] is None else case['chunk']]
 
 
@@ -300,7 +300,7 @@ def _sel_names(case):
     names = [c[0] for c in case['cols']]
     cf = case['cf']
     sel = names if cf is None else ([cf] if isinstance(cf, str) else list(cf))
-    if case['op'] == 'csv' and case['rf'] is not None and case['rf'][0] in ('field', 'xfield') and case['rf'][1] in sel:
+    if case['op'] == 'csv' and case['rf'] is not None and case['rf'][0] == 'field' and case['rf'][1] in sel:
         sel = list(sel)
         sel.remove(case['rf'][1])
     return sel
@@ -366,7 +366,7 @@ def features(case, model):
         if fl and not any(fl): f.append('filter-all-false')
         if rf[0] != 'arr' and rf[1] in (([case['cf']] if isinstance(case['cf'], str) else case['cf'])
                                          if case['cf'] is not None else list(cols)):
-            f.append('filter-field-removed-from-columns')
+            f.append('filter-field-removed-from-columns' if rf[0] == 'field' else 'foreign-filter-field-shares-a-column-name')
         if ch >= 1 and len(fl) > ch and any(fl[ch:]): f.append('filter-hit-beyond-first-chunk')
     if isinstance(case['cf'], str): f.append('cf:str')
     elif case['cf'] is not None:
